@@ -140,6 +140,109 @@ class VKF(Block):
         self.fsm = dut
 
 
+class Link(Block):
+    """COMPOSITION: Reg2Axi -> one AXI4-Stream -> Axi2Reg in one HWSystem.
+    order 'pc' / 'cp': which adapter is instantiated first;  source 'poke': reg_in is poked by the bench,
+    'gated_first' / 'gated_last': reg_in is the output of a Reg on a second, gated ClockDriver (created before / after the adapters)
+    whose data input is poked.  reset/done are shared, each kernel has its own start.
+    inputs (start_p, start_c, reset, done, load_outs, x, en): x = reg_in (poke) or the data input of the gated register, en = its clock enable.
+    step(i, n) holds the inputs for one clk(n) call.  outputs [tvalid, tdata, tlast, tkeep, sent, p_active, q, loaded, c_active, tready, reg_in]"""
+    name = 'Reg2Axi->Axi2Reg'
+    def __init__(self, W, Q, DW, order='pc', source='poke'):
+        py4hw, AXIS, vw = _imports()
+        self.W, self.Q, self.DW, self.order, self.source = W, Q, DW, order, source
+        with quiet():
+            hw = py4hw.HWSystem()
+            sp, sc, rs, dn = hw.wire('ap_start_p', 1), hw.wire('ap_start_c', 1), hw.wire('ap_reset', 1), hw.wire('ap_done', 1)
+            lo, ri = hw.wire('load_outs', 1), hw.wire('reg_in', W)
+            se, pa = hw.wire('sent', 1), hw.wire('p_active', 1)
+            q, ld, ca = hw.wire('q', Q), hw.wire('loaded', 1), hw.wire('c_active', 1)
+            x, en = hw.wire('dut_d', W), hw.wire('dut_en', 1)
+            s = AXIS(hw, 's', dw=DW, has_tlast=True, has_tkeep=True)
+            def dut():
+                r = py4hw.Reg(hw, 'dut', d=x, q=ri)
+                r.clockDriver = py4hw.ClockDriver('clk_dut', base=hw.clockDriver, wire=en, enable=en)
+                return r
+            self.dutreg = dut() if source == 'gated_first' else None
+            for who in order:
+                if who == 'p': self.p = vw.Reg2Axi(hw, 'reg2axi', sp, rs, dn, lo, ri, s, se, pa)
+                else: self.c = vw.Axi2Reg(hw, 'axi2reg', sc, rs, dn, s, q, ld, ca)
+            if source == 'gated_last': self.dutreg = dut()
+        self.inw = [sp, sc, rs, dn, lo, (ri if source == 'poke' else x), en]
+        self.outw = [s.tvalid, s.tdata, s.tlast, s.tkeep, se, pa, q, ld, ca, s.tready, ri]
+        self.hw, self.dut = hw, None
+        with quiet():
+            self.sim = hw.getSimulator()
+        self.wires = netlist.all_wires(hw)
+
+    def step(self, i, n=1):
+        for w, v in zip(self.inw, i): w.put(v)
+        with quiet():
+            self.sim.clk(n)
+        return self.obs()
+
+
+class LinkRef:
+    """the composition of the two reference machines of the property (plain integers): the spec of the link"""
+    def __init__(self, W, Q, DW, gated):
+        self.W, self.Q, self.DW, self.gated = W, Q, DW, gated
+        self.tv = self.td = self.se = self.pa = 0
+        self.q = self.ld = self.ca = 0
+        self.ri = 0
+        self.trace_regin = []
+
+    def cycle(self, i):
+        sp, sc, rs, dn, lo, x, en = i
+        ri = self.ri if self.gated else x & ((1 << self.W) - 1)        # what reg_in shows during the cycle
+        self.trace_regin.append(ri)
+        tready = self.ca
+        acc = self.tv and tready
+        p_hs = self.pa and acc
+        loadp = lo and self.pa
+        tv = 0 if (rs or p_hs) else 1 if loadp else self.tv
+        td = (ri & ((1 << self.DW) - 1)) if loadp else self.td
+        se = 0 if (rs or dn or (sp and not self.pa)) else 1 if p_hs else self.se
+        pa = 0 if (rs or dn) else 1 if sp else self.pa
+        clear = rs or dn or (sc and not self.ca)
+        beat = self.ca and self.tv
+        q, ld = (0, 0) if clear else (self.td & ((1 << self.Q) - 1), 1) if beat else (self.q, self.ld)
+        ca = 0 if (rs or dn) else 1 if sc else self.ca
+        if self.gated:
+            if en: self.ri = x & ((1 << self.W) - 1)
+        else:
+            self.ri = ri
+        self.tv, self.td, self.se, self.pa, self.q, self.ld, self.ca = tv, td, se, pa, q, ld, ca
+
+    def obs(self):
+        keep = (1 << math.ceil(self.W / 8)) - 1
+        return [self.tv, self.td, self.tv, keep, self.se, self.pa, self.q, self.ld, self.ca, self.ca, self.ri]
+
+
+def link_schedule(rng, W, n, kind, multi):
+    """(start_p, start_c, reset, done, load_outs, x, en, ncycles) per clk() call"""
+    out = []
+    nc = (lambda: rng.choice([1, 1, 2, 2, 3, 5])) if multi else (lambda: 1)
+    d = lambda: data_values(rng, W)
+    if kind == 'random':
+        ps, pc, pl = [rng.choice([0.1, 0.3, 0.6]) for _ in range(3)]
+        for _ in range(n):
+            out.append((_bits(rng, ps), _bits(rng, pc), _bits(rng, 0.05), _bits(rng, 0.06), _bits(rng, pl), d(), _bits(rng, 0.5), nc()))
+    elif kind == 'late_consumer':       # producer started and loaded first: the beat waits (back-pressure) until the consumer kernel starts
+        while len(out) < n:
+            out.append((0, 0, 1, 0, 0, d(), 1, nc()))
+            out.append((1, 0, 0, 0, 0, d(), 1, 1))
+            out.append((0, 0, 0, 0, 1, d(), _bits(rng, 0.7), 1))
+            for _ in range(rng.randint(0, 3)): out.append((0, 0, 0, 0, 0, d(), _bits(rng, 0.5), nc()))
+            out.append((0, 1, 0, 0, 0, d(), _bits(rng, 0.5), nc()))
+            for _ in range(rng.randint(0, 2)): out.append((0, 0, 0, 0, _bits(rng, 0.4), d(), _bits(rng, 0.5), nc()))
+            out.append((0, 0, 0, 1, 0, d(), 0, 1))
+    elif kind == 'streaming':           # both active, load pulses while the gated register keeps changing
+        out.append((1, 1, 0, 0, 0, d(), 1, 1))
+        for _ in range(n):
+            out.append((0, 0, 0, 0, _bits(rng, 0.5), d(), _bits(rng, 0.7), nc()))
+    return out[:n]
+
+
 # ------------------------------------------------------------------ interface configurations
 def draw_opts(rng, W, sink):
     """optional signals of AXI4StreamInterface (TLAST/TKEEP/TSTRB flags, TID/TDEST/TUSER widths), some narrower than the payload"""
